@@ -15,7 +15,7 @@ class Result:
     pass
 
 
-def run_case(case, chooser, max_steps=100_000, max_time=900.0, keep_log=False):
+def run_case(case, chooser, max_steps=100_000, max_time=20000.0, keep_log=False):
     knobs = dict(case.get("knobs") or {})
     strategy = dict(case.get("strategy") or {"kind": "uniform"})
     w = World(chooser, knobs=knobs, strategy=strategy, max_steps=max_steps, max_time=max_time,
@@ -75,6 +75,8 @@ def run_case(case, chooser, max_steps=100_000, max_time=900.0, keep_log=False):
         at = f["at"]
         if at[0] == "step":
             s.at_step(at[1], lambda f=f: fire(f))
+        elif at[0] == "rstep":
+            pass  # relative to the end of gateway setup: armed by main()
         elif at[0] == "op":
             op_faults.setdefault((at[1], at[2], at[3]), []).append(f)
         elif at[0] == "byte":
@@ -130,6 +132,9 @@ def run_case(case, chooser, max_steps=100_000, max_time=900.0, keep_log=False):
                 t = ctx.table((p0.pid, gi))
                 t["__gw__"] = gw
             cur.op = None
+            for f in case.get("faults") or ():
+                if f["at"][0] == "rstep":
+                    s.at_step(s.step + f["at"][1], lambda f=f: fire(f))
         except (HarnessError, TaskKilled):
             raise
         except BaseException as e:  # noqa: BLE001
